@@ -154,6 +154,26 @@ def run(prop, tier, seed, replay=None):
             tid += 1
             jobs.append({"kind": "random", "seed": rng.randrange(1 << 30), "profile": prop,
                          "cfg": cfg, "tid": tid})
+    # directed sessions: flows that must be exercised whatever the random generator happens to draw
+    BIG = "@bytes:9600"
+    DIRECTED = {
+        # an opaque file uploaded in several TCP segments / chunks through the aiohttp front end
+        "upload-shapes": (HTTP_CONFIGS[1], [["mk", "cal1", "calendar"],
+                                            ["put", "cal1", "notes.txt", BIG, {"segmented": True}],
+                                            ["put", "cal1", "blob.bin", BIG, {"chunked": True}],
+                                            ["put", "cal1", "a.ics", "@model:1", {"segmented": True}],
+                                            ["put", "cal1", "notes.txt", "@bytes:700", {"segmented": True}],
+                                            ["get", "cal1", "notes.txt"]]),
+        # members of the same name in two collections, asked for in one multiget
+        "same-names": (HTTP_CONFIGS[0], [["mk", "cal1", "calendar"], ["mk", "cal2", "calendar"],
+                                         ["put", "cal1", "a.ics", "@model:1"], ["put", "cal2", "a.ics", "@model:3"],
+                                         ["put", "cal1", "b.ics", "@model:7"],
+                                         ["multiget", "cal1", [["live", "a.ics"], ["othercoll:cal2", "a.ics"], ["live", "b.ics"]]],
+                                         ["multiget", "cal2", [["othercoll:cal1", "a.ics"], ["live", "a.ics"]]]]),
+    }
+    for name, (cfg, steps) in sorted(DIRECTED.items()):
+        tid += 1
+        jobs.append({"kind": "witness", "witness": steps, "cfg": cfg, "tid": tid, "dev": "directed:" + name})
     # the witness history of every listed (open) finding of this cluster, re-run as recorded
     for d, e in sorted(devs.items()):
         if e.get("witness") and e.get("property") == prop:
